@@ -152,7 +152,10 @@ Eval(t, st) ==
          IF v = <<"this">> THEN EOk(<<"map", st.this>>, st) ELSE EOk(v, st)
     [] t[1] = "Id" ->
          IF t[2] \in BuiltinNames THEN EOk(<<"func", t[2]>>, st)
-         ELSE IF HasKey(st.this, t[2]) THEN EOk(st.this[t[2]], st) ELSE EOk(Null, st)
+         \* a typed nil number (a nil *decimal.Big in the data) is a value nothing is pinned about: reading it leaves
+         \* the whole evaluation open (value or error), only totality remains
+         ELSE IF HasKey(st.this, t[2]) THEN (IF st.this[t[2]] = <<"other", "nilbig">> THEN Unspec ELSE EOk(st.this[t[2]], st))
+         ELSE EOk(Null, st)
     [] t[1] = "Paren" -> Eval(t[2], st)
     [] t[1] = "Arr" ->
          LET l == EvalList(t[2], 1, <<>>, st) IN
@@ -220,5 +223,7 @@ Eval(t, st) ==
 \* a top-level evaluation result as the caller sees it (C04: the float64 handed back is
 \* decided separately); the final map and the host-call log are part of the observation
 \* a symbolic "text that parses back to d" (toString of a number) is not a comparable final value
-Outcome(t, st) == LET o == Eval(t, st) IN IF o[1] = "ok" /\ o[2][1] = "strnum" THEN Unspec ELSE o
+\* the final value is handed to the caller through a conversion; for a typed nil number that step is not pinned
+Outcome(t, st) == LET o == Eval(t, st) IN
+                  IF o[1] = "ok" /\ (o[2][1] = "strnum" \/ o[2] = <<"other", "nilbig">>) THEN Unspec ELSE o
 =============================================================================
